@@ -840,3 +840,95 @@ def read_document(fmt, data, **opts):
     if f is None:
         raise CodecError("no strict reader for format %r" % fmt)
     return f(data, **opts)
+
+
+# ==========================================================================================
+# DKVPX (file-formats.md: 'like DKVP but with CSV-style double-quote handling. Keys and values
+# that contain comma, equals, newline, or double-quote are quoted as needed; unquoted keys and
+# values work as in DKVP')
+
+def dkvpx_needs_quote(cell, fs=b",", ps=b"="):
+    return (fs in cell) or (ps in cell) or (b'"' in cell) or (b"\r" in cell) or (b"\n" in cell)
+
+
+def write_dkvpx(records, fs=b",", ps=b"=", rs=b"\n", quote="minimal", rng=None):
+    """quote: 'minimal' (only cells containing FS, PS, quote, CR or LF), 'all', 'random'."""
+    def q(c):
+        if quote == "all" or dkvpx_needs_quote(c, fs, ps) or (quote == "random" and rng is not None and rng.random() < 0.4):
+            return csv_quote(c)
+        return c
+    return b"".join(fs.join(q(k) + ps + q(v) for k, v in r) + rs for r in records)
+
+
+def read_dkvpx_document(data, fs=b",", ps=b"="):
+    """Strict reader: a record is a line (LF or CRLF outside quotes) of FS-separated fields; a field is
+    token [PS token]; a token is either a CSV-style quoted string ("" = one quote; may contain FS, PS,
+    CR and LF) or an unquoted run. Unquoted, the field works as in DKVP: split at the first PS, a field
+    without PS gets its 1-up position as key. A quote inside an unquoted token, or text directly after
+    a closing quote other than PS / FS / end of line, raises CodecError. An empty line is not a record."""
+    n = len(data)
+    i = 0
+    out = []
+    rec = []
+    DQ = 0x22
+
+    def token(i, stop_at_ps):
+        if i < n and data[i] == DQ:
+            i += 1
+            buf = bytearray()
+            while True:
+                j = data.find(b'"', i)
+                if j < 0:
+                    raise CodecError("dkvpx: unterminated quoted token")
+                buf += data[i:j]
+                if j + 1 < n and data[j + 1] == DQ:
+                    buf.append(DQ)
+                    i = j + 2
+                    continue
+                return bytes(buf), j + 1, True
+        j = i
+        while j < n:
+            c = data[j]
+            if c == 0x0A or data.startswith(fs, j) or (stop_at_ps and data.startswith(ps, j)):
+                break
+            if c == 0x0D and j + 1 < n and data[j + 1] == 0x0A:
+                break
+            if c == DQ:
+                raise CodecError("dkvpx: quote inside an unquoted token at byte %d" % j)
+            j += 1
+        return data[i:j], j, False
+
+    def at_eol(i):
+        if i >= n:
+            return 0
+        if data[i] == 0x0A:
+            return 1
+        if data[i] == 0x0D and i + 1 < n and data[i + 1] == 0x0A:
+            return 2
+        return -1
+
+    while i < n:
+        e = at_eol(i)
+        if e > 0 and not rec:
+            i += e           # empty line
+            continue
+        a, i, quoted = token(i, True)
+        if data.startswith(ps, i):
+            b, i, quoted = token(i + len(ps), False)
+            rec.append((a, b))
+        else:
+            rec.append((str(len(rec) + 1).encode(), a))
+        e = at_eol(i)
+        if e >= 0:
+            i += e
+            out.append(rec)
+            rec = []
+        elif data.startswith(fs, i):
+            i += len(fs)
+            if at_eol(i) >= 0:
+                raise CodecError("dkvpx: field separator at end of line")
+        else:
+            raise CodecError("dkvpx: text after closing quote at byte %d" % i)
+    if rec:
+        out.append(rec)
+    return out
